@@ -77,6 +77,7 @@ type rxRunner struct {
 	complete int
 	stuck    bool
 	lates    int
+	logical  bool // the consumer's channel is a logical channel (id > 0), set up through the reader with the peer's acknowledgement
 	// capacity of the channel's package queue for the next connections (0: large, nothing ever waits)
 	k int
 	// > 0: the next NextPackageUntil run gets the response in two instalments (see runUntil)
@@ -120,6 +121,24 @@ func (r *rxRunner) fresh(reader bool, timeout int) error {
 	if r.k > 0 {
 		info.ChannelPackageQueueSize = r.k
 	}
+	if r.logical && reader {
+		// the peer acknowledges logical channel setups (header-only PROTACK packet)
+		mc := r.mc
+		var buf []byte
+		mc.onWrite = func(b []byte) {
+			buf = append(buf, b...)
+			for len(buf) >= 8 {
+				hl := int(buf[2])<<8 | int(buf[3])
+				if hl < 8 || hl > len(buf) {
+					break
+				}
+				if buf[0] == 8 {
+					mc.Feed(mkPacket(11, 1, int(buf[4])<<8|int(buf[5]), 0, nil))
+				}
+				buf = buf[hl:]
+			}
+		}
+	}
 	conn, err := tds.NewConnWithTransport(context.Background(), r.mc, info, reader)
 	if err != nil {
 		return err
@@ -127,6 +146,13 @@ func (r *rxRunner) fresh(reader bool, timeout int) error {
 	ch, err := conn.NewChannel()
 	if err != nil {
 		return err
+	}
+	if r.logical && reader {
+		// the consumer sits on a logical channel (id 1), channel 0 stays idle
+		if ch, err = conn.NewChannel(); err != nil {
+			return err
+		}
+		r.mc.onWrite = nil
 	}
 	r.conn, r.ch = conn, ch
 	r.nEED, r.nEnv = 0, 0
@@ -575,7 +601,7 @@ func (r *rxRunner) runFail(id int, ps []wPkg, cuts []int, off int, kind string, 
 		if bi == len(fbounds)-1 {
 			st = 1
 		}
-		stream = append(stream, mkPacket(4, st, 0, 0, resp[from:to])...)
+		stream = append(stream, mkPacket(4, st, r.ch.VerifChannelID(), 0, resp[from:to])...)
 		pks = append(pks, pk{from, to, len(stream)})
 		from = to
 	}
@@ -1575,7 +1601,10 @@ func rxMain(args []string) error {
 					left -= c
 				}
 			}
-			if err := r.runFail(1, ps, cs, off, kind, *failTimeout, chunks); err != nil {
+			r.logical = (off+i)%3 == 1 // the consumer sits on a logical channel
+			err := r.runFail(1, ps, cs, off, kind, *failTimeout, chunks)
+			r.logical = false
+			if err != nil {
 				return err
 			}
 			if r.lates >= 3 { // enough evidence that errors arrive late or never: do not wait for every offset
